@@ -14,7 +14,7 @@
 From Coq Require Import List ZArith.
 Import ListNotations.
 From OV Require Import C01.Codec C01.CodecProofs C01.Builtins C01.VariantProofs C01.Types C01.TypesProofs
-  C01.Model C01.Proofs C01.DecodedWf Gen.C01ServiceTypes.
+  C01.Model C01.Proofs C01.DecodedWf C01.Argument C01.ArgumentProofs Gen.C01ServiceTypes.
 Open Scope Z_scope.
 
 (* every built-in type (k = encoding mask 1..22, 25), Variant and DataValue *)
@@ -40,6 +40,21 @@ Proof.
   split; [|split]; [apply Forall_forall; intros t _; apply ty_codec_ok ..|reflexivity].
 Qed.
 Print Assumptions C01_generated.
+
+(* the hand-written Argument structure (types/argument.rs, method argument descriptions): the same law;
+   wf = what encode() accepts (a positive value_rank comes with exactly that many dimensions); for
+   value_rank <= 0 the dimensions are not written and decode as the empty array (norm) *)
+Theorem C01_argument : codec_ok arg_codec.
+Proof. exact arg_codec_ok. Qed.
+Print Assumptions C01_argument.
+
+(* before "fix: Argument byte_len counted array dimensions ...": a scalar argument (value_rank -1) that
+   carries one dimension, as decode accepts it from a peer, reported byte_len 21 but wrote 17 bytes *)
+Theorem C01_argument_legacy_refuted :
+  let a := Arg (Some []) (NId 255 (INum 223)) (-1) (Some [65536]) (SLText None None) in
+  wf_arg a /\ LegacyArg.len_arg a = 21 /\ Z.of_nat (length (enc_arg a)) = 17 /\ len_arg a = 17.
+Proof. exact legacy_arg_refuted. Qed.
+Print Assumptions C01_argument_legacy_refuted.
 
 (* the codec law is preserved by the generic combinators *)
 Theorem C01_combinators :
